@@ -77,15 +77,25 @@ def gen_cases(r: Run):
     cases.append(dict(op="eq", a=base, b=base[:2], oa=Fraction(0), ob=Fraction(0), kind="corpus"))
     cases.append(dict(op="eq", a=base, b=[], oa=Fraction(0), ob=Fraction(0), kind="corpus"))
     nlists = 400 if thorough else 60
-    for li in range(nlists):
+    # lengths and magnitudes named by new literals of the changed code: lists of d-1, d, d+1 peaks; totals of about f/4, f, 4f
+    from . import common as _c
+    import math
+    special = [("len", v) for v in _c.dict_ints(1, 300)] + [("mag", f) for f in _c.DICT_FLOATS if 1e-300 < abs(f) < 1e300]
+    for li in range(nlists + 3 * len(special)):
         n = rng.choice([1, 2, 3, 4, 5, 8, 13, 21, 34, 64]) if li % 3 else rng.randint(1, 64)
+        sp = special[(li - nlists) // 3] if li >= nlists else None
+        if sp and sp[0] == "len":
+            n = sp[1]
         l = gen_list(rng, n, normalised=(li % 2 == 0))
+        if sp and sp[0] == "mag":
+            e = round(math.log2(abs(sp[1]))) + (-2, 0, 2)[li % 3] - (0 if li % 2 == 0 else round(math.log2(max(1e-9, float(sum(i for _, i in l))))))
+            l = [(m, i * (Fraction(2) ** e)) for m, i in l]
         if li % 10 in (7, 9):
             # the same shapes at extreme magnitudes (a positive total far below f64::EPSILON, or astronomically large):
             # "every non-empty pattern with positive total intensity" — powers of two keep every value exact
             k = Fraction(1, 2 ** 70) if li % 10 == 7 else Fraction(2 ** 120)
             l = [(m, i * k) for m, i in l]
-        scaled = li % 10 in (7, 9)
+        scaled = li % 10 in (7, 9) or bool(sp and sp[0] == "mag")
         # the origin is a field of its own: only sometimes the first peak's m/z
         origin = l[0][0] if li % 3 == 0 else Fraction(rng.randint(50 * 64, 3000 * 64), 64)
         is_norm = sum(i for _, i in l) == 1
